@@ -26,7 +26,7 @@ TITLE = 'TemplateError with exact location'
 LEVEL = 'exploration'
 SHARDS = {'quick': 16, 'thorough': 16}
 FLOOR = {'quick': 150, 'thorough': 400}
-REQUIRED_MONITORS = {'M-err': 2000, 'M-tokalg': 10000, 'planted': 2000, 'valid-compiled': 1000, 'M-crash': 2000}
+REQUIRED_MONITORS = {'M-err': 2000, 'M-tokalg': 10000, 'planted': 2000, 'valid-compiled': 1000, 'M-crash': 2000, 'file-version-uses': 1000}
 RULE = ('a case = (site kind, fault kind, surroundings); surroundings randomise the number of list parts before/after, '
         '";;" escapes, entities and string literals in neighbouring parts, leading text (newlines, tabs, non-ASCII, '
         'comments, elements), tag layout (single line / attributes on separate lines), and the invalid expression itself '
@@ -325,6 +325,75 @@ def run(ctx):
                           {'kind': 'lang', 'src': full, 'cfg': lcfg})
     layer_smoke(ctx, 300 if ctx.quick else 5000)
     layer_garbage_arguments(ctx, 400 if ctx.quick else 8000)
+    layer_file_versions(ctx, 25 if ctx.quick else 400)
+
+
+
+def layer_file_versions(ctx, n):
+    """The template is a file under auto_reload whose versions alternate between valid texts and texts with a
+    language error: EVERY use (render, macros, cook_check) of an erroneous version raises the located TemplateError for
+    the text the file has now - also the second and third use after the edit - and every use of a valid version works."""
+    import os
+    import shutil
+    import tempfile
+    from chameleon import PageTemplateFile
+    from chameleon.exc import TemplateError
+    rng = ctx.rng
+    tmp = tempfile.mkdtemp(prefix='c11f_')
+    try:
+        for case in range(n):
+            path = os.path.join(tmp, 'f%d.pt' % case)
+            mtime = 1_000_000
+            t = None
+            hist = []
+            for step in range(rng.randint(2, 5)):
+                faulty = rng.random() < .55
+                if faulty:
+                    lk, lsrc, locre = rng.choice(LANG_FAULTS)
+                    text = gen_lead(rng) + lsrc
+                else:
+                    lk, text = 'valid', gen_lead(rng) + '<p tal:content="%s">v%d</p>' % (rng.choice(GOODS).replace('"', "'"), step)
+                with open(path, 'w', encoding='utf-8') as f:
+                    f.write(text)
+                mtime += rng.choice([1, 5, -3])
+                os.utime(path, (mtime, mtime))
+                hist.append('write(%s)' % lk)
+                if t is None:
+                    t = PageTemplateFile(path, auto_reload=True)
+                for use in range(rng.randint(1, 3)):
+                    how = rng.choice(['render', 'render', 'macros', 'cook_check'])
+                    hist.append(how)
+                    res = None
+                    try:
+                        if how == 'render':
+                            t(a=1, x=1, d={'k': 1})
+                        elif how == 'macros':
+                            t.macros.names
+                        else:
+                            t.cook_check()
+                        if faulty:
+                            res = 'no error although the file now holds a template with a language error (%s)' % lk
+                    except TemplateError as e:
+                        if not faulty:
+                            res = 'valid version rejected: %s' % str(e).split('\n')[0][:100]
+                        else:
+                            ctx.mon('M-err')
+                            src_now = text.replace('\r\n', '\n').replace('\r', '\n')
+                            problem = monitors.check_template_error(e, src_now)
+                            if problem:
+                                res = 'error of the current version misaligned: %s' % problem
+                    except Exception as e:
+                        if faulty or how != 'render':
+                            res = '%s: %s' % (type(e).__name__, str(e).split('\n')[0][:100])
+                    ctx.mon('file-version-uses')
+                    if res:
+                        ctx.violation('file-version-with-language-error-not-rejected-on-every-use' if faulty else 'file-version-valid-but-fails',
+                                      'history %r on an auto_reload file template, current text %r: %s' % (hist, text, res),
+                                      {'kind': 'filever', 'hist': hist})
+                        break
+            ctx.case(key=('filever', tuple(h for h in hist)), nontrivial=any(h.startswith('write(') and h != 'write(valid)' for h in hist))
+    finally:
+        shutil.rmtree(tmp, ignore_errors=True)
 
 
 SMOKE_ATTRS = [
